@@ -872,6 +872,17 @@ func (x *Exec) binary(e *ast.BinaryExpr, st *State) Value {
 	lt, rt := x.info.TypeOf(e.X), x.info.TypeOf(e.Y)
 	switch e.Op {
 	case token.EQL, token.NEQ:
+		// slice == nil: slices carry no nil bit in this model; the answer is left open (it implies len == 0), which
+		// over-approximates both outcomes
+		if sl, other, ok := sliceVsNil(lv, rv); ok {
+			_ = other
+			b := x.vc.fresh("isnil", sortBool)
+			x.assume(st, tImp(b, tEq(sl.get("$len").(Term), zeroOf(x.idxSort()))))
+			if e.Op == token.NEQ {
+				return tNot(b)
+			}
+			return b
+		}
 		lv, rv = x.unifyOperands(lv, rv, lt, rt, st)
 		var r Term
 		switch l := lv.(type) {
@@ -1359,4 +1370,25 @@ func (x *Exec) baseLeaf(s *Sort, p string) Term {
 		return zeroOf(s)
 	}
 	return x.vc.freshBase(p, s)
+}
+
+
+// sliceVsNil: one operand is a slice value and the other the nil constant.
+func sliceVsNil(a, b Value) (*StructV, Value, bool) {
+	isNil := func(v Value) bool {
+		switch t := v.(type) {
+		case Term:
+			return t.S == "0" && t.T.K == SRef
+		case ConstV:
+			return t.V != nil && t.V.Kind() == constant.Int && t.V.ExactString() == "0"
+		}
+		return false
+	}
+	if sa, ok := a.(*StructV); ok && isSlice(sa) && isNil(b) {
+		return sa, b, true
+	}
+	if sb, ok := b.(*StructV); ok && isSlice(sb) && isNil(a) {
+		return sb, a, true
+	}
+	return nil, nil, false
 }
